@@ -29,8 +29,8 @@ ASSUMPTIONS = [
 ]
 TRUSTED = ["taskiq_dependencies 1.5.7 (executed)", "CPython asyncio (real, virtual clock)", "vt.sym explorer"]
 BOUNDS = {"concurrent executions": "2 (quick) / 2 and 3 (thorough) direct callbacks; 3 (quick) / 3 and 4 (thorough) messages through Receiver.listen with max_async_tasks 1 and 2", "dependency shapes": 6, "suspension points per execution": "<= 4"}
-REQUIRED_COVERS = ["equal_labels", "typed_args", "interleaved_in_resolution", "nocache", "nested", "generator", "cached", "via_listen"]
-SHAPES = ("cached", "nocache_after_wait", "nested_nocache", "generator_nocache", "sync_nocache", "ctx_param_only", "equal_args_of_different_type", "equal_labels_mutated")
+REQUIRED_COVERS = ["override", "equal_labels", "typed_args", "interleaved_in_resolution", "nocache", "nested", "generator", "cached", "via_listen"]
+SHAPES = ("cached", "nocache_after_wait", "nested_nocache", "generator_nocache", "sync_nocache", "ctx_param_only", "equal_args_of_different_type", "equal_labels_mutated", "override_adds_nocache")
 ARGS_BY_TYPE = [1, True, 1.0]
 
 
@@ -168,6 +168,22 @@ def harness(c: sym.Ctx, case: Dict[str, Any]) -> None:
                            ctx: Context = TaskiqDepends()) -> Any:
                 await wait("body")
                 return (i, rid if rid == rid0 else f"{rid0}|{rid}", ctx.message.task_id, dict(ctx.message.labels), list(ctx.message.args))
+        elif shape == "override_adds_nocache":
+            c.cover("override")
+
+            def plain() -> str:
+                return "plain"
+
+            def replacement(s2: str = TaskiqDepends(slow), rid: str = TaskiqDepends(read, use_cache=False)) -> str:
+                return rid
+
+            # the declared graph has only a cached, dependency-free node; the broker-level override swaps in one that
+            # resolves an un-cached Context reader after a suspension
+            broker.dependency_overrides = {plain: replacement}
+
+            async def task(i: int, rid: str = TaskiqDepends(plain), ctx: Context = TaskiqDepends()) -> Any:  # type: ignore[misc]
+                await wait("body")
+                return (i, rid, ctx.message.task_id, dict(ctx.message.labels), list(ctx.message.args))
         elif shape == "equal_labels_mutated":
             c.cover("equal_labels")
 
